@@ -574,7 +574,9 @@ def tasks(tier, seed):
         if W.shape == (2, 2) and (tier != "quick" or cone in ("orthant2", "theta45", "theta60", "theta120")):
             for which in ("size", "set"):
                 ts.append({"id": f"uncovered_{which}[{cone}]", "fn": "uncovered_task",
-                           "args": {"cone": cone, "W": W.tolist(), "n1": 1 if tier == "quick" else 2, "n2": 2,
+                           "args": {"cone": cone, "W": W.tolist(), "n2": 2,
+                                    # 2 × 2 takes about 10 min per cone: a spread of cones only
+                                    "n1": 2 if (tier != "quick" and cone in ("orthant2", "theta30", "theta60", "theta90", "theta120", "theta150")) else 1,
                                     "which": which, "tier": tier}, "weight": 5})
     f1_cones = [c for c in cones if c[0] in ("orthant2", "theta60", "theta120")]
     for cone, W in (f1_cones[:2] if tier == "quick" else f1_cones):
@@ -596,7 +598,7 @@ def meta(tier):
         "functions": src_info(uu.get_smallmij, uu.get_delta, uu.is_covered, uu.get_uncovered_size, uu.get_uncovered_set,
                               ev.calculate_epsilonF1_score),
         "bounds": {"N": "2 value vectors for ε-F1 and gaps (3 for gaps in the thorough tier, 2-D cones)", "m": "2 (3 for m(i,j))",
-                   "coverage counts": "1 point (2 thorough) against 2 predictions, 2-D cones", "cones": [c for c, _ in cone_set(tier)]},
+                   "coverage counts": "1 point (2 in the thorough tier for six cones) against 2 predictions, 2-facet 2-D cones", "cones": [c for c, _ in cone_set(tier)]},
         "stubs": ["cvxpy exact-answer stub for utils.is_covered", "α concrete = VOPy's own get_alpha_vec output "
                   "(cross-checked against an independent KKT oracle; its optimality is C17)"],
         "assumptions": ["floats are encoded as exact reals", "α's defining property w_n·u ≤ α_n for unit u∈C is used as a "
